@@ -147,6 +147,25 @@ func runC15(c *ctx) {
 			}
 		}
 	}
+	// (b') the responses an SSO PROXY generates itself on owned endpoints (redirects to the SSO server, the callback bounce): marked non-cacheable like any other
+	{
+		ps := newSut(sutOpts{mode: "sso-proxy", ingresses: []string{"http://app.example.com"}, ssoServerURL: "http://sso.example.com", ssoDomain: "example.com"})
+		prp := ps.replica("P")
+		for _, ep := range []string{"/oauth2/login", "/oauth2/login?redirect=/x", "/oauth2/logout", "/oauth2/callback?code=x&state=y", "/oauth2/logout/callback", "/oauth2/nope", "/oauth2/"} {
+			for _, f := range []fm{{"navigate", "document"}, {"", ""}} {
+				hdr := http.Header{}
+				if f.mode != "" {
+					hdr.Set("Sec-Fetch-Mode", f.mode)
+					hdr.Set("Sec-Fetch-Dest", f.dest)
+				}
+				resp := newBrowser().do(prp, "GET", "http://app.example.com"+ep, hdr)
+				cc := resp.Header.Get("Cache-Control")
+				c.count("proxyown")
+				c.emit("proxyown", "ep", hx(ep), "mode", hx(f.mode), "status", resp.Status, "nocache", strings.Contains(cc, "no-store") || strings.Contains(cc, "no-cache"))
+			}
+		}
+		ps.close()
+	}
 	hostile := []string{`"><script>alert(1)</script>`, `javascript:alert(1)`, `'onmouseover='x`, `</a><img src=x onerror=y>`, `%22%3E%3Cscript%3E`, "\"\n<b>", "ABSFORM:javascript", "ABSFORM:data", "ABSFORM:vbscript"}
 	hrefRe := regexp.MustCompile(`href="([^"]*)"`)
 	for _, hs := range hostile {
